@@ -288,6 +288,45 @@ Theorem dqn_policy_no_mask : forall q, dqn_policy q (repeat true (length q)) = a
 Proof. exact dqn_policy_no_mask_lemma. Qed.
 Print Assumptions dqn_policy_no_mask.
 
+(* ---------------------------------------------------------------- numeric masks, batches, all agents *)
+(* the learners invert a numeric mask as 1 - m: an entry counts as legal iff m == 1; on 0/1 masks of any numeric type this is
+   exactly "m is non-zero", while a truthy entry other than 1 is treated as illegal *)
+Theorem numeric_mask_inversion : forall m, legal_of_num m = true <-> m == 1.
+Proof. exact legal_of_num_spec. Qed.
+Print Assumptions numeric_mask_inversion.
+
+Theorem numeric_mask_01 : forall ms,
+  Forall (fun m => m == 0 \/ m == 1) ms -> legal_of_nums ms = map (fun m => negb (Qeq_bool m 0)) ms.
+Proof. exact legal_of_nums_01. Qed.
+Print Assumptions numeric_mask_01.
+
+Theorem numeric_mask_truthy_refuted : exists m, ~ m == 0 /\ legal_of_num m = false.
+Proof. exact legal_of_num_truthy_refuted. Qed.
+Print Assumptions numeric_mask_truthy_refuted.
+
+(* the action of one observation does not depend on the rest of the batch (DQN; Rainbow/bandits/CQN-greedy; DDPG/TD3) *)
+Theorem batch_is_rowwise : forall eps rows1 rows2,
+  dqn_get_action eps (rows1 ++ rows2) = dqn_get_action eps rows1 ++ dqn_get_action eps rows2.
+Proof. exact dqn_batch_rowwise. Qed.
+Print Assumptions batch_is_rowwise.
+
+Theorem batch_row_is_single_call : forall eps rows i r grows v m training a box crows y n,
+  (nth_error rows i = Some r ->
+   nth_error (dqn_get_action eps rows) i = Some (dqn_row (dq_q r) (dq_u r) (dq_coin r) eps (dq_legal r))) /\
+  (nth_error grows i = Some (v, m) -> nth_error (greedy_rows grows) i = Some (greedy_row v m)) /\
+  (nth_error crows i = Some (y, n) ->
+   nth_error (ddpg_get_action training a box crows) i = Some (ddpg_row training a box y n)).
+Proof. intros. split; [apply dqn_batch_nth|split; [apply greedy_batch_nth|apply ddpg_batch_nth]]. Qed.
+Print Assumptions batch_row_is_single_call.
+
+(* every agent of MADDPG/MATD3 stays inside its OWN box *)
+Theorem maddpg_every_agent_in_own_box : forall training a agents,
+  Forall (fun '(box, y, n) => Forall wf_bounds box /\ length y = length box /\ length n = length box /\
+            (training = false -> squashing a = true /\ finite_box box = true /\ forall x, In x y -> in_act_range a x)) agents ->
+  Forall2 (fun '(box, _, _) out => in_box box out) agents (maddpg_cont_all training a agents).
+Proof. exact maddpg_all_agents_in_box. Qed.
+Print Assumptions maddpg_every_agent_in_own_box.
+
 (* ---------------------------------------------------------------- non-vacuity *)
 (* a tie between two legal maxima behind a masked larger value: first legal maximum wins *)
 Example greedy_nonvacuous :
@@ -308,6 +347,10 @@ Example ddpg_nonvacuous :
 Proof.
   split; [reflexivity|]. apply ddpg_action_in_box; auto. repeat constructor; cbn; discriminate.
 Qed.
+(* bool / int8 / float masks all arrive as 0/1 numbers: [0;1;1] means "first action illegal"; 2 would be illegal too *)
+Example numeric_mask_nonvacuous :
+  legal_of_nums [0; 1; 1] = [false; true; true] /\ legal_of_nums [2; 1] = [false; true].
+Proof. split; reflexivity. Qed.
 Example support_nonvacuous :
   masked_support [50; -50; 0] [false; true; true] = [1%nat; 2%nat].
 Proof. reflexivity. Qed.
